@@ -2,6 +2,7 @@ import InfOCFModel.Ops
 import InfOCFModel.Diag
 import InfOCFModel.Cnf
 import InfOCFModel.Rank
+import InfOCFModel.Lexer
 /-!
 Line-protocol driver: one request per line on stdin, one response per line on stdout.
 
@@ -73,6 +74,21 @@ def rankFn (Ω : List World) (ranks : List Nat) : World → Nat :=
 def zSpecRank (weakly : Bool) (P : List (List Cond)) (w : World) : Nat :=
   let fin := finLayers weakly P
   if nofal (infLayer weakly P) w then zrk fin w else fin.length + 1
+
+def hexVal (c : Char) : Nat :=
+  if c.isDigit then c.toNat - '0'.toNat else if 'a' ≤ c && c ≤ 'f' then c.toNat - 'a'.toNat + 10 else 0
+
+/-- text arrives hex-encoded (UTF-8 bytes; the harness only sends code points below 128 un-escaped,
+anything else is sent as the byte sequence and decoded per byte, which is enough to be an illegal character) -/
+def unhex (s : String) : String :=
+  let rec go : List Char → List Char
+    | a :: b :: r => Char.ofNat (hexVal a * 16 + hexVal b) :: go r
+    | _ => []
+  String.ofList (go (s.toList.drop 1))
+
+def showParsedBase (b : ParsedBase) : String :=
+  "ok\t" ++ ",".intercalate b.signature ++ "\t" ++ b.name ++ "\t" ++
+    "\t".intercalate (b.conds.map fun p => p.1.show ++ " ## " ++ p.2.show)
 
 def bit (b : Bool) : String := if b then "1" else "0"
 
@@ -222,6 +238,21 @@ def handle (line : String) : Except String (String × Bool) := do
         let okAcc := (List.zip acc ops).all fun p => p.2 == "x" || p.2 == "-" || p.2 == bit p.1
         pure (" ".intercalate (code.map toString) ++ "|" ++ String.join (acc.map bit) ++ "|" ++ String.join ops,
               code == spec && okAcc)
+    | "pformula" =>
+      let h ← tok
+      match parseFormulaText (unhex h) with
+      | some f => pure ("ok\t" ++ f.show, true)
+      | none => pure ("reject", true)
+    | "pbase" =>
+      let h ← tok
+      match parseBaseText (unhex h) with
+      | some b => pure (showParsedBase b, true)
+      | none => pure ("reject", true)
+    | "pqueries" =>
+      let h ← tok
+      match parseQueriesText (unhex h) with
+      | some b => pure (showParsedBase b, true)
+      | none => pure ("reject", true)
     | "ans" =>
       let n ← pnat
       let wk ← pnat
